@@ -24,6 +24,7 @@ import (
 	"testing"
 	"time"
 
+	"github.com/fsnotify/fsnotify"
 	"github.com/megaease/easegress/pkg/cluster"
 	"github.com/megaease/easegress/pkg/cluster/clustertest"
 	"github.com/megaease/easegress/pkg/context"
@@ -50,13 +51,16 @@ type c06hInput struct {
 
 type c06hStep struct {
 	K       string `json:"k"`
-	Alive   bool   `json:"alive"`     // the current generation's user cache is alive after the step
-	OldDead bool   `json:"old_dead"`  // inherit: the closed generation's cache is dead
-	Visible bool   `json:"visible"`   // update: the canary of this update is visible through the current generation
-	Result  string `json:"result"`    // req
-	Status  int    `json:"status"`    // req
-	User    string `json:"auth_user"` // req: X-AUTH-USER afterwards
-	Panic   string `json:"panic,omitempty"`
+	Alive   bool   `json:"alive"`    // the current generation's user cache is alive after the step
+	OldDead bool   `json:"old_dead"` // inherit: the closed generation's cache is dead
+	Visible bool   `json:"visible"`  // update: the canary of this update is visible through the current generation
+	// update: the change demonstrably reached the notification mechanism — FILE: the harness' own fsnotify watcher on the
+	// file got an event; ETCD: the current generation's syncer reader took the new content
+	CtlVisible bool   `json:"ctl_visible"`
+	Result     string `json:"result"`    // req
+	Status     int    `json:"status"`    // req
+	User       string `json:"auth_user"` // req: X-AUTH-USER afterwards
+	Panic      string `json:"panic,omitempty"`
 }
 
 type c06hObs struct {
@@ -141,7 +145,17 @@ func c06hAlive(v *Validator) bool {
 	}
 	switch c := v.basicAuth.authorizedUsersCache.(type) {
 	case *htpasswdUserCache:
-		return c.watcher != nil && c.watcher.Add(c.userFile) == nil
+		if c.watcher == nil {
+			return false
+		}
+		// fsnotify closes Events and Errors when the watcher is closed; a non-blocking receive on Errors does not
+		// change the set of watches (unlike Add) and takes no file event away
+		select {
+		case _, ok := <-c.watcher.Errors:
+			return ok
+		default:
+			return true
+		}
 	case *etcdUserCache:
 		return c.stopCtx != nil && c.stopCtx.Err() == nil
 	}
@@ -235,6 +249,18 @@ func c06hExec(raw json.RawMessage) interface{} {
 	}
 	var all []*Validator
 	all = append(all, cur)
+	// FILE mode: the harness' own fsnotify watcher on the file, independent of the code under test
+	var ctl *fsnotify.Watcher
+	if w.mode == "FILE" {
+		if ctl, err = fsnotify.NewWatcher(); err == nil {
+			defer ctl.Close()
+			if ctl.Add(w.file) != nil {
+				ctl = nil
+			}
+		} else {
+			ctl = nil
+		}
+	}
 	defer func() {
 		for _, v := range all {
 			func() {
@@ -276,18 +302,21 @@ func c06hExec(raw json.RawMessage) interface{} {
 			if err := w.write(tbl); err != nil {
 				st.Panic = "write"
 			}
+			handed := false
 			if w.mode == "ETCD" {
 				// hand the new content to every generation's syncer channel that still has a reader
 				w.mu.Lock()
 				chans, kvs := append([]chan map[string]string(nil), w.chans...), w.kvs
 				w.mu.Unlock()
+				curAlive := c06hAlive(cur)
 				for i, ch := range chans {
-					bound := 20 * time.Millisecond
-					if i == len(chans)-1 {
-						bound = 2 * time.Second // the newest syncer belongs to the current generation (unless it is shared)
+					bound := 10 * time.Millisecond
+					if i == len(chans)-1 && curAlive {
+						bound = 2 * time.Second // the newest syncer belongs to the current generation; its reader is running
 					}
 					select {
 					case ch <- kvs:
+						handed = handed || (i == len(chans)-1 && curAlive)
 					case <-time.After(bound):
 					}
 				}
@@ -295,7 +324,23 @@ func c06hExec(raw json.RawMessage) interface{} {
 			st.Alive = c06hAlive(cur)
 			bound := 3 * time.Second
 			if !st.Alive {
-				bound = 300 * time.Millisecond // dead for good: nothing to wait for
+				bound = 50 * time.Millisecond // dead for good: nothing to wait for
+			}
+			if ctl != nil {
+				select {
+				case _, ok := <-ctl.Events:
+					st.CtlVisible = ok
+				case <-time.After(3 * time.Second):
+				}
+				for drained := false; !drained; { // the rest of this write's events
+					select {
+					case <-ctl.Events:
+					case <-time.After(5 * time.Millisecond):
+						drained = true
+					}
+				}
+			} else {
+				st.CtlVisible = handed
 			}
 			st.Visible = w.waitVisible(cur, bound)
 			obs.Steps = append(obs.Steps, st)
